@@ -47,6 +47,7 @@ type FnCtx struct {
 	strAxioms bool
 	strLenDone map[string]bool
 	ixAxiom   bool
+	lastReadInitial bool
 	epochs    int
 	abstracted map[string]bool
 	assumptions map[string]bool
@@ -79,6 +80,7 @@ type FnCtx struct {
 	pinned    bool
 	lockCount map[string]int
 	og        *ogSpec
+	opKeys    map[ssa.Instruction]string
 	decided   []*OblResult
 	doneChans []Term
 	closedHavocs [][2]Term
@@ -892,6 +894,7 @@ func (c *FnCtx) execInstr(fr *Frame, st *State, instr ssa.Instruction) {
 	case *ssa.Phi:
 		fr.regs[x] = c.phi(fr, st, x)
 	case *ssa.Call:
+		c.callSiteAsserts(fr, st, x)
 		res := c.call(fr, st, x.Common(), x, false)
 		if res != nil {
 			fr.regs[x] = res
